@@ -675,7 +675,8 @@ def bin_rules(run, db):
         ev = [e for e in res[0].events if e['kind'] == 'reduce']
         if not ev and not isinstance(res[0].value, Shaped):
             raise AnalysisError("bindown(mode='%s'): how the bins are reduced is not followed (%r)" % (mode, res[0].value))
-        ok = len(ev) == 1 and ev[0]['which'] == red
+        ok = len(ev) == 1
+        kind_read = ok and ev[0]['which'] == red
         detail = 'reductions: %s' % [(e['which'], e['axes']) for e in ev]
         if ok:
             lens = [dom.rat(x) for x in ev[0]['lengths']]
@@ -688,6 +689,10 @@ def bin_rules(run, db):
                 want = [dom.floordiv(dom.rat(s0), dom.rat(f0), None), dom.floordiv(dom.rat(s1), dom.rat(f1), None)]
                 ok = isinstance(v, Shaped) and len(v.shape.items) == 2 and all(dom.rat(a) == dom.rat(b) for a, b in zip(v.shape.items, want))
                 detail = 'result shape %r' % (v,)
+        if ok and not kind_read:
+            # the right axes are reduced, by something other than ndarray.%s (a sum scaled afterwards, a contraction): what the bins
+            # come to is a matter of values, not of the name of the reduction
+            raise AnalysisError("bindown(mode='%s'): the bins are reduced by %s and whatever arithmetic follows, not by the reduction named %s: not read here" % (mode, ev[0]['which'], red))
         run.check(ok, 'C16.bin', f.qual, "bindown mode '%s'" % mode, "mode '%s' takes the %s over exactly the factor-sized axes of the (s//f, f) view" % (mode, red),
                   "bindown(mode='%s') does not take the %s over the factor axes: %s" % (mode, red, detail), f.loc())
     # scalar factor is broadcast to every axis
